@@ -1684,3 +1684,13 @@ func isStringKinded(t types.Type) bool {
 	b, ok := t.Underlying().(*types.Basic)
 	return ok && b.Info()&types.IsString != 0
 }
+
+
+func (x *Exec) reveals(name string) bool {
+	for _, r := range x.spec.Reveals {
+		if r == name {
+			return true
+		}
+	}
+	return false
+}
